@@ -206,7 +206,18 @@ func runProgram(t *rapid.T, focus string) {
 	okWriteSeen := false
 	for i := 0; i < nSteps; i++ {
 		switch rapid.SampledFrom([]string{"write", "write", "write", "burst", "read", "read", "isolate", "heal", "cut", "restart", "stop", "start",
-			"unavailable", "unavailable", "coordRestart", "holdNewTerm", "release", "swap", "settle", "settle"}).Draw(t, "step") {
+			"unavailable", "unavailable", "coordRestart", "holdNewTerm", "release", "swap", "settle", "settle", "lateDelivery"}).Draw(t, "step") {
+		case "lateDelivery":
+			nSent := c.wire.sentCount()
+			if nSent == 0 {
+				continue
+			}
+			res := c.wire.deliverLate(rapid.IntRange(0, nSent-1).Draw(t, "lateMsg"))
+			s.logf("%s", res)
+			if strings.Contains(res, "accepted") {
+				s.labels["late_message_accepted"] = true
+			}
+			s.labels["late_message"] = true
 		case "write":
 			op := s.genWrite(s.believedLeader())
 			s.runOps([]*ClientOp{op})
@@ -913,7 +924,7 @@ func (s *caseState) checkFencingHistory(events []Event, logs map[string][]*proto
 			// the node becomes leader again only through a later BecomeLeader
 			ledAgain := false
 			for _, e := range events {
-				if e.Kind == "becomeleader.send" && e.To == op.Node && e.Seq > f.seq && e.Seq < op.RetSeq {
+				if (e.Kind == "becomeleader.send" || e.Kind == "late.becomeleader") && e.To == op.Node && e.Seq > f.seq && e.Seq < op.RetSeq {
 					ledAgain = true
 				}
 			}
@@ -1002,6 +1013,11 @@ func (s *caseState) checkElectionSafety(events []Event) {
 	// per node: answered terms never go down
 	last := map[string]int64{}
 	for _, e := range events {
+		if e.Kind == "deleteshard" && e.Err == "" {
+			// the replica was removed from this node on the coordinator's order: the node keeps nothing of the shard,
+			// a later (late) request finds a node that has never seen it
+			delete(last, e.To)
+		}
 		if e.Kind == "newterm.answered" {
 			if p, ok := last[e.From]; ok && e.Term < p {
 				s.violation("C05: node %s answered NewTerm(%d) after it had answered NewTerm(%d)", e.From, e.Term, p)
